@@ -15,6 +15,7 @@ CLAIMED = {
  'C11': ('exploration', 'The core use of the scheduler: 2-4 mocker tasks (own builder, pairwise disjoint targets) and 1-3 caller tasks on steadily mocked functions (callbacks, origin-calling callbacks, stubs) taken from an address-adjacent window of the zoo so that they share code pages. Seeded preemption at every hook site (inside replaceFunc, between mprotect RWX / copy / mprotect RX, at every lock hand-over of the modelled patches/mem/funcsize locks), GC and stack-growth events at the same points. Oracles: the race-detector build of the same plans (the baton is invisible to the detector, so only goom\'s own synchronisation orders tasks), crash and sim-deadlock, every steady call returns its mocked result with one callback invocation, each mocker\'s targets follow its own model after each of its operations, the full text image differs from pristine only at entries some task owns (complete jump or pristine, never a mixture), pages keep x while a writer is parked mid-write, and at quiescence the image is pristine again.', 'Trusted: hook placement (a deleted hook line removes a preemption point, the race and end-of-operation oracles still run); serialised execution cannot show multi-core effects of cross-modifying code; callers only touch steady targets as the statement requires.', 'deterministic simulation: seeded scheduler over real goroutines (futex baton), modelled locks, race detector on serialised execution, image/page invariants at every step', 'DESIGN.md §7 C11'),
  'C12': ('exploration', 'Lookup/instruction histories (fresh lookups only) against a last-writer-wins model, behaviour checked by calling the target after every step.', 'Trusted: the grammar of Appendix F (stale handles kept across Apply are not generated).', 'deterministic simulation: seeded histories vs last-writer-wins reference model', 'DESIGN.md §7 C12'),
  'C13': ('exploration', 'Well-formed histories with eleven classes of ill-formed configuration calls spliced in at seeded positions (on un-mocked and on mocked targets); each must panic/err (typed cause chain walked), change no text byte, and leave the model state intact for the rest of the history.', 'Trusted: the classes of mistakes are the ones the statement lists; When(..).Return(bad) chains are not generated because the When half is a valid call that patches.', 'deterministic simulation: fault = rejected operation inside a history, "nothing changed" image oracle', 'DESIGN.md §7 C13'),
+ 'C14': ('exploration', 'Three configurations. Arena: 1-2 writer tasks call memory.WriteTo with seeded offset / length 1..9000 into a 6-page assembly arena of callable MOV $k,AX; RET cells (small, page-straddling, multi-page and 13-byte writes) while 1-2 caller tasks that the scheduler runs at mem.write.rwx / mem.write.copied execute cells on the pages being written; oracle: live arena == byte model (data landed exactly, nothing else moved), full .text diff confined to the arena, every executed cell returns its old or in-flight value, /proc/self/maps keeps x mid-write and shows r-x (no w) afterwards. Faults: errno injected at the mprotect seam on seeded calls; then only all-old-or-all-new and no stray byte are asserted (goom\'s documented fallback drops x when RWX is denied). Sweep: patch.Ptr + Apply + Unpatch on ~1700 real compiler-emitted functions of linked-but-never-executed library packages and the zoo, full image diff and page check around every write, jump confined to [entry, entry+13) and to the function\'s own extent.', 'Trusted: ELF symbol table for extents; functions are 32-byte aligned by the linker so an entry is never closer than 32 bytes to a page end (measured by a probe); the per-function sweep is enumeration of the workload axis, mid-write observation and concurrent execution are the simulated part.', 'deterministic simulation: seeded writers/callers interleaved at mid-write hook points, errno injection at the mprotect seam, byte-model and page-table oracles', 'DESIGN.md §7 C14'),
  'C20': ('fault_enumeration', 'One OS process per plan (the bump pointer is process-global and monotone): 1-4 requester tasks call stub.Acquire + stub.Write + execute with seeded sizes (0, 1-256, page+-1, 2^48, x8 until the reserve is exhausted); the mmap seam fails always / never / on a seeded half of the calls (EACCES, ENOMEM) so both allocators and their mixture run; the scheduler preempts between the load and the add of the bump pointer. A reference allocator (interval set) checks: size >= requested, pairwise disjoint from everything handed out before, reserve regions inside the reserve bounds, writable through stub.Write, executable (a MOV $k,AX; RET stub is written, called, and called again at the end to detect clobbering), exhaustion reported as an error, no text byte outside the reserve changed; race-detector build on the same plans.', 'Trusted: HolderBounds() export (verif tag) for the reserve bounds; negative sizes are not requests.', 'deterministic simulation: errno injection at the mmap seam x seeded interleavings at the allocator, interval-set reference model', 'DESIGN.md §7 C20'),
 }
 
